@@ -56,6 +56,9 @@ func compileSpec(s ReSpec) (re *regexp2.Regexp, err error) {
 	return re, err
 }
 
+// patterns a Regexp value held before UnmarshalText replaces it
+var usedPats = []string{`(\d+)-(\d+)`, `(a)|b`, `\w+`, `(?<n>x)+y`, `^(?:ab)*$`}
+
 func errClass(err error) string {
 	if err == nil {
 		return ""
@@ -341,31 +344,39 @@ func execOp(re *regexp2.Regexp, op *Op, ctx *opCtx) (out string) {
 		}
 		return sb.String()
 	case OpWalk2:
+		// the first error of either chain ends the walk at once, so that an aborted walk is a prefix of the
+		// full one and the call that failed is the last one started (its latency is what is judged)
 		in2 := op.In2.Text()
 		m1, e1 := re.FindStringMatch(in)
+		if e1 != nil {
+			return errClass(e1)
+		}
+		ctx.callStarts()
 		m2, e2 := re.FindRunesMatch([]rune(in2))
+		if e2 != nil {
+			return errClass(e2)
+		}
 		var sb strings.Builder
-		// the first error of either chain ends the walk, so that an aborted walk is a prefix of the full one
-		for k := 0; k < maxWalk && (m1 != nil || m2 != nil || e1 != nil || e2 != nil); k++ {
-			if e1 != nil {
-				sb.WriteString(errClass(e1))
-				break
-			} else if m1 != nil {
+		for k := 0; k < maxWalk && (m1 != nil || m2 != nil); k++ {
+			if m1 != nil {
 				sb.WriteString("1:")
 				canonOne(&sb, m1)
 				sb.WriteString("|")
 				ctx.callStarts()
-				m1, e1 = re.FindNextMatch(m1)
+				if m1, e1 = re.FindNextMatch(m1); e1 != nil {
+					sb.WriteString(errClass(e1))
+					break
+				}
 			}
-			if e2 != nil {
-				sb.WriteString(errClass(e2))
-				break
-			} else if m2 != nil {
+			if m2 != nil {
 				sb.WriteString("2:")
 				canonOne(&sb, m2)
 				sb.WriteString("|")
 				ctx.callStarts()
-				m2, e2 = re.FindNextMatch(m2)
+				if m2, e2 = re.FindNextMatch(m2); e2 != nil {
+					sb.WriteString(errClass(e2))
+					break
+				}
 			}
 		}
 		return sb.String()
@@ -406,12 +417,29 @@ func execOp(re *regexp2.Regexp, op *Op, ctx *opCtx) (out string) {
 		if err != nil {
 			return orErr("", err)
 		}
-		var r2 regexp2.Regexp
+		r2 := new(regexp2.Regexp)
+		if ctx != nil && op.StartAt > 0 {
+			// in a history (not in the pristine world): unmarshal into a Regexp value that has been used
+			// with another pattern -- every call afterwards must be the new pattern's
+			r2 = regexp2.MustCompile(usedPats[op.StartAt%len(usedPats)])
+			const used = "12-34 ab xxy abab" // short: the cost of the history must stay small next to the call's own
+			r2.MatchString(used)
+			r2.FindStringMatch(used)
+			r2.Replace(used, "<$0>", -1, -1)
+		}
 		if err := r2.UnmarshalText(b); err != nil {
 			return "UNMARSHAL:" + err.Error()
 		}
 		ok, err := r2.MatchString(in)
-		return orErr(fmt.Sprintf("%s %q %v", b, r2.String(), ok), err)
+		if err != nil {
+			return orErr("", err)
+		}
+		ok2, _ := r2.MatchRunes([]rune(in))
+		all, _ := r2.FindAllStringIndex(in, -1)
+		m, err := r2.FindStringMatch(in)
+		walk := canonWalk(r2, m, err, nil, false, 0)
+		rep, err := r2.Replace(in, op.Repl, -1, -1)
+		return orErr(fmt.Sprintf("%s %q %v %v %v %s %q %v", b, r2.String(), ok, ok2, all, walk, rep, r2.GetGroupNames()), err)
 	case OpIdle:
 		vsim.Sleep(time.Duration(op.IdleNs))
 		return ""
